@@ -159,6 +159,33 @@ func (c *Conn) answer(kind string) string {
 	return a
 }
 
+// pushEcho records an echo. Like a real remote (and the dummy connector) it keeps only the latest refresh of a
+// message's mailboxes / flags or of a mailbox name: several changes between two polls yield one update with the
+// latest state.
+func (c *Conn) pushEcho(s Spec) {
+	switch s.Kind {
+	case "MessageMailboxesUpdated", "MessageFlagsUpdated":
+		out := c.Echoes[:0:0]
+		for _, e := range c.Echoes {
+			if e.Kind == s.Kind && e.Msg == s.Msg {
+				continue
+			}
+			out = append(out, e)
+		}
+		c.Echoes = out
+	case "MailboxUpdated":
+		out := c.Echoes[:0:0]
+		for _, e := range c.Echoes {
+			if e.Kind == s.Kind && e.Mbox == s.Mbox {
+				continue
+			}
+			out = append(out, e)
+		}
+		c.Echoes = out
+	}
+	c.Echoes = append(c.Echoes, s)
+}
+
 // SetFault appends an answer for the next call of the given kind.
 func (c *Conn) SetFault(kind, answer string) {
 	c.mu.Lock()
@@ -197,7 +224,7 @@ func (c *Conn) CreateMailbox(ctx context.Context, cache connector.IMAPStateWrite
 	c.nextMbox++
 	id := imap.MailboxID(fmt.Sprintf("mb%d", c.nextMbox))
 	c.Mailboxes[id] = &RMailbox{ID: id, Name: append([]string(nil), name...)}
-	c.Echoes = append(c.Echoes, Spec{Kind: "MailboxCreated", Mbox: string(id), Name: name})
+	c.pushEcho(Spec{Kind: "MailboxCreated", Mbox: string(id), Name: name})
 	return c.mboxOf(id), nil
 }
 
@@ -231,7 +258,7 @@ func (c *Conn) UpdateMailboxName(ctx context.Context, cache connector.IMAPStateW
 	if m, ok := c.Mailboxes[mboxID]; ok {
 		m.Name = append([]string(nil), newName...)
 	}
-	c.Echoes = append(c.Echoes, Spec{Kind: "MailboxUpdated", Mbox: string(mboxID), Name: newName})
+	c.pushEcho(Spec{Kind: "MailboxUpdated", Mbox: string(mboxID), Name: newName})
 	return nil
 }
 
@@ -246,7 +273,7 @@ func (c *Conn) DeleteMailbox(ctx context.Context, cache connector.IMAPStateWrite
 	for _, m := range c.Messages {
 		delete(m.Mboxes, mboxID)
 	}
-	c.Echoes = append(c.Echoes, Spec{Kind: "MailboxDeleted", Mbox: string(mboxID)})
+	c.pushEcho(Spec{Kind: "MailboxDeleted", Mbox: string(mboxID)})
 	return nil
 }
 
@@ -275,7 +302,7 @@ func (c *Conn) CreateMessage(ctx context.Context, cache connector.IMAPStateWrite
 	c.nextMsg++
 	id := imap.MessageID(fmt.Sprintf("rm%d", c.nextMsg))
 	c.Messages[id] = &RMessage{ID: id, Literal: append([]byte(nil), literal...), Flags: flags.Clone(), Date: date, Mboxes: map[imap.MailboxID]bool{mboxID: true}}
-	c.Echoes = append(c.Echoes, c.msgSpec("MessagesCreated", id))
+	c.pushEcho(c.msgSpec("MessagesCreated", id))
 	return imap.Message{ID: id, Flags: flags, Date: date}, literal, nil
 }
 
@@ -296,7 +323,7 @@ func (c *Conn) AddMessagesToMailbox(ctx context.Context, cache connector.IMAPSta
 	for _, id := range messageIDs {
 		if m, ok := c.Messages[id]; ok {
 			m.Mboxes[mboxID] = true
-			c.Echoes = append(c.Echoes, c.msgSpec("MessageMailboxesUpdated", id))
+			c.pushEcho(c.msgSpec("MessageMailboxesUpdated", id))
 		}
 	}
 	return nil
@@ -313,7 +340,7 @@ func (c *Conn) RemoveMessagesFromMailbox(ctx context.Context, cache connector.IM
 	for _, id := range messageIDs {
 		if m, ok := c.Messages[id]; ok {
 			delete(m.Mboxes, mboxID)
-			c.Echoes = append(c.Echoes, c.msgSpec("MessageMailboxesUpdated", id))
+			c.pushEcho(c.msgSpec("MessageMailboxesUpdated", id))
 		}
 	}
 	return nil
@@ -334,7 +361,7 @@ func (c *Conn) MoveMessages(ctx context.Context, cache connector.IMAPStateWrite,
 				delete(m.Mboxes, mboxFromID)
 			}
 			m.Mboxes[mboxToID] = true
-			c.Echoes = append(c.Echoes, c.msgSpec("MessageMailboxesUpdated", id))
+			c.pushEcho(c.msgSpec("MessageMailboxesUpdated", id))
 		}
 	}
 	return ans != "copied", nil
@@ -351,7 +378,7 @@ func (c *Conn) mark(kind string, messageIDs []imap.MessageID, flag string, on bo
 	for _, id := range messageIDs {
 		if m, ok := c.Messages[id]; ok {
 			m.Flags.SetOnSelf(flag, on)
-			c.Echoes = append(c.Echoes, c.msgSpec("MessageFlagsUpdated", id))
+			c.pushEcho(c.msgSpec("MessageFlagsUpdated", id))
 		}
 	}
 	return nil
